@@ -139,4 +139,129 @@ theorem compileF_fuel_irrelevant (reg : Registry) (opt : Bool) :
     obtain ⟨g2, rfl⟩ : ∃ g, f2 = g + 1 := ⟨f2 - 1, by omega⟩
     exact compileF_succ_eq g1 g2 reg opt t (fun a ha => ih a (by omega) g1 g2 (by omega) (by omega))
 
+/-! ### the out-of-fuel branch is never taken -/
+
+/-- No function builder of the registry fails with the model's own out-of-fuel message. -/
+def NoFuelMsg (reg : Registry) : Prop :=
+  ∀ name f args, reg name = some f → f args ≠ .error "out of fuel"
+
+section
+variable (g : Nat) (reg : Registry) (hreg : NoFuelMsg reg)
+
+omit hreg in
+theorem args_ne (fargs : List (List Char))
+    (h : ∀ a ∈ fargs, compileF g reg false a ≠ .error "out of fuel") :
+    compileArgs g reg false fargs ≠ .error "out of fuel" := by
+  induction fargs with
+  | nil => rw [compileArgs]; simp
+  | cons a r ih =>
+    rw [compileArgs]
+    have h1 := h a (by simp)
+    have h2 := ih (fun b hb => h b (by simp [hb]))
+    cases hc : compileF g reg false a with
+    | error m => rw [hc] at h1; simpa using h1
+    | ok p =>
+      obtain ⟨st, er⟩ := p
+      simp only []
+      cases hc2 : compileArgs g reg false r with
+      | error m => rw [hc2] at h2; simpa using h2
+      | ok q => obtain ⟨ss, es⟩ := q; simp
+
+include hreg
+
+theorem close_ne (all : List Char) (i : Nat) (st : CompSt)
+    (h : ∀ a ∈ splitArgs st.sb, compileF g reg false a ≠ .error "out of fuel") :
+    closeStatement g reg false all i st ≠ .error "out of fuel" := by
+  rw [closeStatement]
+  match hs : splitArgs st.sb with
+  | [] => simp
+  | [a] => simp
+  | name :: b :: r =>
+    simp only []
+    cases hr : reg name with
+    | none => simp
+    | some f =>
+      simp only []
+      have h2 := args_ne g reg (b :: r) (fun a ha => h a (by rw [hs]; simp [List.mem_cons.mp ha]))
+      cases hc : compileArgs g reg false (b :: r) with
+      | error m => rw [hc] at h2; simpa using h2
+      | ok q =>
+        obtain ⟨cargs, aerrs⟩ := q
+        simp only []
+        have h3 := hreg name f cargs hr
+        cases hf : f cargs with
+        | error m => rw [hf] at h3; simpa using h3
+        | ok b => simp
+
+theorem loop_ne (N : Nat) (all : List Char)
+    (hA : ∀ a : List Char, a.length < N → compileF g reg false a ≠ .error "out of fuel") :
+    ∀ (m : Nat) (rest : List Char) (i : Nat) (st : CompSt), rest.length ≤ m →
+      st.sb.length + rest.length ≤ N →
+      compileLoop g reg false all rest i st ≠ .error "out of fuel" := by
+  intro m
+  induction m with
+  | zero =>
+    intro rest i st hm _
+    have : rest = [] := List.length_eq_zero_iff.mp (by omega)
+    subst this; rw [loop_nil]; simp
+  | succ m ih =>
+    intro rest i st hm hN
+    cases rest with
+    | nil => rw [loop_nil]; simp
+    | cons r rest =>
+      simp only [List.length_cons] at hm hN
+      by_cases h1 : r = '\\'
+      · subst h1
+        cases rest with
+        | nil => rw [loop_esc_last]; simp
+        | cons e rest =>
+          simp only [List.length_cons] at hm hN
+          rw [loop_esc]
+          exact ih _ _ _ (by omega) (by simp; omega)
+      · by_cases h2 : r = '{'
+        · subst h2
+          by_cases h0 : st.inStatement = 0
+          · rw [loop_open0 _ _ _ _ _ _ _ h0]
+            exact ih _ _ _ (by omega) (by simp; omega)
+          · rw [loop_openN _ _ _ _ _ _ _ h0]
+            exact ih _ _ _ (by omega) (by simp; omega)
+        · by_cases h3 : r = '}' ∧ st.inStatement ≠ 0
+          · obtain ⟨h3, h4⟩ := h3
+            subst h3
+            by_cases h5 : st.inStatement = 1
+            · rw [loop_close1 _ _ _ _ _ _ _ h5]
+              have hc := close_ne g reg hreg all i st (fun a ha => hA a (by have := splitArgs_length ha; omega))
+              cases hcl : closeStatement g reg false all i st with
+              | error m => rw [hcl] at hc; simpa using hc
+              | ok st' => exact ih _ _ _ (by omega) (by simp; omega)
+            · rw [loop_closeN _ _ _ _ _ _ _ (by omega)]
+              exact ih _ _ _ (by omega) (by simp; omega)
+          · have h3' : r ≠ '}' ∨ st.inStatement = 0 := by
+              by_cases hr : r = '}'
+              · right; exact Classical.byContradiction fun hc => h3 ⟨hr, hc⟩
+              · left; exact hr
+            rw [loop_plain _ _ _ _ _ _ _ _ h1 h2 h3']
+            exact ih _ _ _ (by omega) (by simp; omega)
+
+end
+
+/-- With fuel above the template length the recursive compiler never runs out of fuel
+    (optimiser off; the optimiser adds no recursion). -/
+theorem compileF_ne_out_of_fuel (reg : Registry) (hreg : NoFuelMsg reg) :
+    ∀ (L : Nat) (t : List Char), t.length < L → ∀ f, t.length < f →
+      compileF f reg false t ≠ .error "out of fuel" := by
+  intro L
+  induction L with
+  | zero => intro t h; omega
+  | succ L ih =>
+    intro t hL f h1
+    obtain ⟨g, rfl⟩ : ∃ g, f = g + 1 := ⟨f - 1, by omega⟩
+    have hl := loop_ne g reg hreg t.length t (fun a ha => ih a (by omega) g (by omega)) t.length t 0
+      ⟨[], [], [], 0, 0⟩ (Nat.le_refl _) (by simp)
+    rw [compileF]
+    cases hc : compileLoop g reg false t t 0 ⟨[], [], [], 0, 0⟩ with
+    | error m => rw [hc] at hl; simpa using hl
+    | ok st => simp
+
+
 end Rare.C09
